@@ -17,7 +17,8 @@ pub struct P09 {
     pub base_pct: u64,
     pub dur: u64,
     pub amount: u128,
-    /// 0 none, 1 one active, 2 two active same owner, 3 two owners, 4 three owners, 5 future-only, 6 expired-only, 7 active+expired
+    /// 0 none, 1 one active, 2 two active same owner, 3 two owners, 4 three owners, 5 future-only, 6 expired-only, 7 active+expired,
+    /// 8 eleven active (two owners), 9 one farm claimed down to zero but still inside its epoch range
     pub farms: u8,
 }
 
@@ -72,6 +73,15 @@ fn build_base(w: &mut World, farms: u8) {
     w.advance(40 * DAY);
     if farms == 5 {
         mk(w, C, 45, 47, "f1");
+    }
+    if farms == 9 {
+        // a farm emitting in epochs 41 and 42; at epoch 43 (still its end epoch) the only staker so far claims everything: the farm has nothing left (expired by exhaustion) inside its own epoch range
+        mk(w, C, 41, 43, "x1");
+        w.advance(3 * DAY);
+        let o = apply(w, &FuOp::Claim { u: B, until: None });
+        assert!(o.is_ok(), "MACHINERY: claim {}", o.err_text());
+        let f = observe_light(w).farms.into_iter().find(|f| f.identifier.ends_with("x1")).expect("MACHINERY: farm x1");
+        assert!(f.claimed_amount == f.farm_asset.amount, "MACHINERY: farm x1 not exhausted: {:?}", f);
     }
 }
 
@@ -244,7 +254,7 @@ pub fn points09(tier: Tier) -> Vec<P09> {
     for b in &bases {
         for d in &durs {
             for a in &amounts {
-                for f in 0u8..9 {
+                for f in 0u8..10 {
                     v.push(P09 { base_pct: *b, dur: *d, amount: *a, farms: f });
                 }
             }
